@@ -273,9 +273,10 @@ Theorem unfinished_more_iff_no_error_fueled : forall fuel text s',
 Proof. exact UnfinishedMore.unfinished_more_iff_no_error_fueled. Qed.
 Print Assumptions unfinished_more_iff_no_error_fueled.
 
-(* the fuel bound of (G) is met by the example below: 13 tokens for the long text, fuel 100 *)
+(* the fuel bound of (G) is met by the example below (ex_unfinished_prefix): at most 24 tokens for the
+   long text, fuel 100 *)
 Example ex_fuel_bound :
-  (4 * length (text_tokens ([40; 100; 101; 102; 32; 102; 32; 91; 97] ++ nl ++ [98; 93; 32; 49; 41])) + 2 <=? 100)%nat = true.
+  Nat.leb (length (text_tokens ([40; 100; 101; 102; 32; 102; 32; 91; 97] ++ nl ++ [98; 93; 32; 49; 41]))) 24 = true.
 Proof. vm_compute. reflexivity. Qed.
 
 Theorem unfinished_needmore_refuted : exists text s',
